@@ -266,8 +266,7 @@ def serial_cases(ctx, inv):
     while n < (200 if q else 2500):
         rr = g.recipe()
         if n % 3 == 0:       # wrap every third one into a configurator with an explicit or generated id
-            rules = [rr] + [g.recipe() for _ in range(ctx.rng.randint(0, 2))]
-            ids = set(); ok = True
+            rules = [_rename(x, "R%d" % j) for j, x in enumerate([rr] + [g.recipe() for _ in range(ctx.rng.randint(0, 2))])]
             rr = {"c": "Cfg", "a": rules, "id": "cfg" if n % 2 else "", "v": 0, "s": 0, "d": "", "f": -1}
         for f in gen.features(rr): ctx.region(f)
         cases.append({"recipe": rr, "src": "random", "leaf_str": bool(n % 2)})
@@ -314,6 +313,8 @@ def poly_universe(ctx, invariants, name, nr=2, nc=2, coefs=range(-2, 3), bs=rang
         cases.append({"rows": [[x["b"]] + list(x["a"]) for x in st["rows0"]], "bounds": [[c["lo"], c["hi"]] for c in st["cols0"]],
                       "src": "spec", "k": len(cases)})
     os.remove(r["dump_path"])
+    cases.sort(key=lambda c: json.dumps([c["rows"], c["bounds"]]))
+    for k, c in enumerate(cases): c["k"] = k
     return cases
 
 def random_polys(ctx, n, required=("rows>=3", "cols>=3", "nonunit_coef", "zero_coef", "neg_lower", "degenerate_bound", "infeasible_hint")):
@@ -401,6 +402,8 @@ def run_c20(ctx):
         cases.append({"vars": st["vars"], "dict": st["d"] if isinstance(st["d"], dict) else {}, "list": st["lst"], "src": "spec",
                       "bits": [len(cases) % 2, 1, (len(cases) // 2) % 2]})
     os.remove(r["dump_path"])
+    cases.sort(key=lambda c: json.dumps([c["vars"], c["dict"], c["list"]], sort_keys=True))
+    for k, c in enumerate(cases): c["bits"] = [k % 2, 1, (k // 2) % 2]
     rng = ctx.rng
     for k in range(300 if q else 3000):
         ids = rng.sample(["a", "b", "c", "n7", "uml", "fz", "A", "zq"], rng.randint(1, 5))
@@ -476,18 +479,32 @@ def cfg_cases(ctx, inv, quick_prios=3):
     for c in cs:
         c["prios_list"] = prios_lists(B_leaves(c["recipe"]), ctx.rng, n=1)
     cases += cs
+    # the same definition under two classes (the "at least one" half of an Xor and a separate Any) next to a defaulted Any
+    for x, y, z in (("a", "b", "c"), ("p", "q", "r"), ("u", "w", "v"), ("d", "e", "f")):
+        rr = _cc("Cfg", _R("Xor", LEAF(x), LEAF(y)), _R("Imply", _R("All", LEAF("k")), _R("Any", LEAF(x), LEAF(y))),
+                 _cc("ccAny", LEAF(x), LEAF(z), LEAF("m"), d=z))
+        cases.append({"recipe": rr, "src": "handmade", "prios_list": [[{}], [{"k": 1}], [{"k": 1, "m": -2}, {"m": 1, "k": 1}]]})
     g = gen.Gen(ctx.rng, classes=CFG_RULES, ints=False, max_kids=3, depth=2, documented=True, max_box=64)
     n = 0
     while n < (120 if q else 1500):
-        rules = [g.recipe() for _ in range(ctx.rng.randint(1, 3))]
-        ids = [x["id"] for x in rules if x["id"]]
-        if len(ids) != len(set(ids)): continue
+        rules = [_rename(g.recipe(), "R%d" % j) for j in range(ctx.rng.randint(1, 3))]
         rr = {"c": "Cfg", "a": rules, "id": "cfg" if n % 2 else "", "v": 0, "s": 0, "d": "", "f": -1}
         if len(_all_ids(rr)) > 11: continue
         for f in gen.features(rr): ctx.region(f)
         cases.append({"recipe": rr, "src": "random", "prios_list": prios_lists(B_leaves(rr), ctx.rng, n=2)})
         n += 1
     return cases
+
+def _rename(r, prefix, memo=None):
+    """explicit ids of independently generated rules are made distinct (shared sub-recipes stay shared)"""
+    memo = {} if memo is None else memo
+    if r["c"] == "leaf": return r
+    if id(r) in memo: return memo[id(r)]
+    r2 = dict(r)
+    memo[id(r)] = r2
+    r2["a"] = [_rename(x, prefix, memo) for x in r["a"]]
+    if r["id"]: r2["id"] = prefix + r["id"]
+    return r2
 
 def B_leaves(r):
     from . import build as B
@@ -565,7 +582,7 @@ RULES = lambda: [_R("Any", LEAF("p"), LEAF("q"), id="P1"), _cc("ccAny", LEAF("p"
                  _cc("ccXor", LEAF("r"), LEAF("s"), d="r"), _R("Imply", _R("All", LEAF("a")), LEAF("q"), id="P3"),
                  _R("Any", LEAF("a"), LEAF("q"), id="X"), _R("AtMost", LEAF("p"), LEAF("q"), LEAF("r"), v=1)]
 
-ALL_OPS = ["evaluate", "evaluate_all", "assume", "reduce", "negate", "errors", "to_json", "to_b64", "to_poly", "flatten",
+ALL_OPS = ["evaluate", "evaluate_all", "assume", "reduce", "negate", "errors", "to_json", "to_b64", "to_poly", "flatten", "flags",
            "cfg_poly", "default_prios", "leafs", "select", "add"]
 
 def _fn_dict(d):
@@ -593,6 +610,7 @@ def api_histories(ctx, name, pairs, ops, maxlen, rules, dictvals=((0, 0), (0, 1)
         seen.add(key)
         hs.append(st)
     os.remove(r["dump_path"])
+    hs.sort(key=lambda st: json.dumps([st["hist"], st["rcp"]], sort_keys=True))
     return hs
 
 def history_cases(ctx, states, pairs_by_top):
@@ -645,9 +663,17 @@ def run_c09(ctx):
     api_histories(ctx, "API_as_implemented", pairs[:2], ["evaluate", "assume", "reduce"], 2, rules, deviations=["assume_own_id_leak"], expect_violation="Purity")
     states = api_histories(ctx, "API_intended", pairs, ALL_OPS, 2, rules)
     cases = history_cases(ctx, states, [p for pr in pairs for p in pr])
-    if q and len(cases) > 6000:
-        ctx.notes.append("quick tier replays a seeded sample of 6000 of the %d enumerated length-2 histories" % len(cases))
-        cases = ctx.rng.sample(cases, 6000)
+    if q and len(cases) > 5000:
+        ctx.notes.append("quick tier replays a seeded sample of 5000 of the %d enumerated length-2 histories" % len(cases))
+        cases = ctx.rng.sample(cases, 5000)
+    # length-3 histories over a few operations (read - call that triggers the known deviation - read again)
+    st3 = api_histories(ctx, "API_len3", [(cat["M1"], cat["G1"])], ["flags", "assume", "evaluate_all", "reduce"], 3, rules[:1], dictvals=((0, 0), (1, 1)))
+    c3 = history_cases(ctx, st3, [cat["M1"], cat["G1"]])
+    n3 = 2000 if q else 20000
+    if len(c3) > n3:
+        ctx.notes.append("a seeded sample of %d of the %d enumerated length-3 histories is replayed" % (n3, len(c3)))
+        c3 = ctx.rng.sample(c3, n3)
+    cases += c3
     run_histories(ctx, cases)
 
 def run_c18(ctx):
@@ -668,10 +694,10 @@ def run_c18(ctx):
     run_histories(ctx, cases)
 
 PROPS = {
-    "C09": {"run": run_c09, "clauses": {"store_unchanged", "no_unexplained_overwrite", "result_as_fresh", "old_unchanged", "no_exception"}},
+    "C09": {"run": run_c09, "clauses": {"store_unchanged", "no_unexplained_overwrite", "result_as_fresh", "result_as_state", "old_unchanged", "no_exception"}},
     "C18": {"run": run_c18, "clauses": {"refused_iff_clash", "is_direct_build", "id_kept", "old_unchanged", "no_exception"}},
     "C13": {"run": run_c13, "clauses": {m + ":" + c for m in drivers.METHODS for c in ("shape", "exact", "prio_dense", "rank_dense", "zeros_signs", "ties", "order", "dominance", "unknown_method")} | {"no_exception"}},
-    "C14": {"run": run_c14, "clauses": {"ranks", "opt_same", "poly_is_own", "objective_count", "cols_cover_leaves", "no_exception"}},
+    "C14": {"run": run_c14, "clauses": {"ranks", "opt_same", "dpv_expected", "poly_is_own", "objective_count", "cols_cover_leaves", "no_exception"}},
     "C15": {"run": run_c15, "clauses": {"cols_cover_leaves", "poly_is_own", "objective_count", "objective_by_id", "ids_aligned", "optimal", "model_true", "raises_infeasible", "no_exception"}},
     "C11": {"run": run_c11, "clauses": {"shape", "rows_implied", "cols_forced", "projection", "labels", "loop_inv", "reduce_cols_fn", "reduce_rows_fn", "no_exception"}},
     "C12": {"run": run_c12, "clauses": {"shape", "contain", "no_widen", "contra_only_if_empty", "rowb_exact", "colb", "ncomb", "no_exception"}},
